@@ -481,6 +481,44 @@ def helper_guards(F, hb, depth=1):
     return _GUARDS[hb.path]
 
 
+def _places(x):
+    """every place ([local, projection..]) mentioned anywhere in a statement / terminator"""
+    if isinstance(x, dict):
+        for k, v in x.items():
+            if k in ("p", "dest") and isinstance(v, list) and v and isinstance(v[0], int):
+                yield v
+            else:
+                yield from _places(v)
+    elif isinstance(x, list):
+        if len(x) == 2 and x[0] in ("cp", "mv") and isinstance(x[1], list) and x[1] and isinstance(x[1][0], int):
+            yield x[1]
+        else:
+            for y in x:
+                yield from _places(y)
+
+
+def _frame_touches(b):
+    """Blocks in which a stack frame is touched: a method of StackFrame is called, or a field of a StackFrame other than its `id`
+    is read or borrowed (the accessor helpers of the frame may be written out in place)."""
+    locs = b.mir.get("locals") or []
+    out = []
+    for bi, blk in enumerate(b.blocks):
+        t = blk["term"]
+        if t["k"] == "call" and "StackFrame" in (mir.callee(t) or "") and "Vec<" not in (mir.callee(t) or ""):
+            out.append(bi)
+            continue
+        hit = False
+        for pl in _places(blk):
+            ty = str((locs[pl[0]] if pl[0] < len(locs) else {}).get("ty") or "")
+            if "StackFrame" not in ty or "Vec<" in ty:
+                continue
+            if any(isinstance(e, list) and e[0] == "f" and e[2] != "id" for e in pl[1:]):
+                hit = True
+        if hit:
+            out.append(bi)
+    return out
+
+
 def rule_v3(F):
     """Every slice of an allocation is taken only after the bounds and the alignment of the access were asserted, and a frame is only
     touched through a local pointer after the pointer's frame id was compared with the frame's - on every path, wherever the assertion
@@ -511,14 +549,14 @@ def rule_v3(F):
         if b is None or not b.mir:
             r.missing(fn)
             continue
-        uses = [bi for bi, t in mir.calls(b) if hir.last(mir.callee(t) or "") == callee and "StackFrame" in (mir.callee(t) or "")]
+        uses = _frame_touches(b)
         ok = bool(uses) and all("frame-id" in guards_before(F, b, ub) for ub in uses)
         r.inst(fn, {"fn": fn, "frame_accesses": len(uses), "frame_id_checked_before_access": ok})
         if not ok:
             r.bad(fn, "frame id", relfile(b.file), b.line, "the frame id of a local pointer is not compared before the frame is accessed (use after free would go unnoticed)")
     g = F.body("lir::eval::Memory::get")
     if g is not None and g.mir:
-        uses = [bi for bi, t in mir.calls(g) if "StackFrame" in (mir.callee(t) or "")]
+        uses = _frame_touches(g)
         if uses and not all("frame-id" in guards_before(F, g, ub) for ub in uses):
             r.note("cross-reference (not armed, no witness IR): Memory::get lacks the frame-id comparison its siblings write/read_slice have")
     return r
